@@ -313,6 +313,10 @@ func panicSite() string {
 	}
 }
 
+// Poke wakes the scheduler if it is letting simulated time pass (for timers
+// owned by scenario code, e.g. context deadlines).
+func (s *Sim) Poke() { s.poke() }
+
 func (s *Sim) poke() {
 	select {
 	case s.notify <- struct{}{}:
@@ -524,6 +528,7 @@ var tickDurations = []time.Duration{time.Millisecond, 50 * time.Millisecond, tim
 // bubble's root goroutine.
 func (s *Sim) Run() Result {
 	var res Result
+	var idleSlice time.Duration
 	for {
 		synctest.Wait()
 		select {
@@ -575,13 +580,28 @@ func (s *Sim) Run() Result {
 		s.step++
 		if len(cands) == 0 {
 			s.mu.Unlock()
+			// Nothing can run: let time pass. Timers that wake no task (a context
+			// deadline somebody polls through WaitFor) do not notify the scheduler,
+			// so time passes in growing slices and conditions are looked at again
+			// after each.
 			remaining := s.cfg.Horizon - time.Since(s.start)
-			if remaining <= 0 || !s.tick(remaining) {
+			if remaining <= 0 {
 				res.Idle = true
 				break
 			}
+			if idleSlice == 0 {
+				idleSlice = time.Millisecond
+			} else if idleSlice < 1<<60 {
+				idleSlice *= 4
+			}
+			d := idleSlice
+			if d > remaining {
+				d = remaining
+			}
+			s.tick(d)
 			continue
 		}
+		idleSlice = 0
 		if s.cfg.TickOneIn > 1 && s.ch.Choose(s.cfg.TickOneIn, "tick?") == s.cfg.TickOneIn-1 {
 			d := tickDurations[s.ch.Choose(len(tickDurations), "tick duration")]
 			s.mu.Unlock()
